@@ -41,7 +41,8 @@ def jobs(tier):
     add("BS", "B", country="es")
     add("BBS", "B", schedule={"2020": "fifo", "2021": "hifo"}, years=(2020, 2021))
     add("BS", "B", schedule={"2019": "hifo"}, config_schedule=True)  # [accounting_methods] section with a single year
-    add("BBS", "B", uid="same")  # partial fills sharing one order id: several transactions of one asset with the same unique id
+    add("BBS", "B", uid="same")
+    add("BBB", "B", accounts="abc")  # accounts X1/H1, X1/H2, X2/H1: one holder's accounts are not adjacent in exchange order  # partial fills sharing one order id: several transactions of one asset with the same unique id
     if tier == "thorough":
         add("BBS", "B", filt="from", method="lifo")
         for c1 in ["BSM", "BBSS", "BISS"]:
@@ -57,7 +58,7 @@ def jobs(tier):
 
 
 def describe(spec):
-    return "B1=%s B2=%s %s filter=%s %s %s" % (spec["c1"], spec["c2"], ",".join("%s:%s" % kv for kv in sorted(spec["schedule"].items())), spec["filter"], spec["country"], "-".join(map(str, spec["years"]))) + (" uid=" + spec["uid"] if spec.get("uid") else "") + (" offset=shared" if spec.get("off") else "")
+    return "B1=%s B2=%s %s filter=%s %s %s" % (spec["c1"], spec["c2"], ",".join("%s:%s" % kv for kv in sorted(spec["schedule"].items())), spec["filter"], spec["country"], "-".join(map(str, spec["years"]))) + (" uid=" + spec["uid"] if spec.get("uid") else "") + (" offset=shared" if spec.get("off") else "") + (" accounts=" + spec["accounts"] if spec.get("accounts") else "")
 
 
 def weight(spec):
@@ -124,6 +125,8 @@ def run(S, spec):
         s["ho"] = "H1" if i % 2 == 0 else "H2"
         if spec.get("uid") == "same":
             s["uid"] = "order-77"
+        if spec.get("accounts"):
+            s["ex"], s["ho"] = {"a": ("X1", "H1"), "b": ("X1", "H2"), "c": ("X2", "H1"), "d": ("X2", "H2")}[spec["accounts"][i]]
     for i, s in enumerate(s2):
         s["row"] = 10 + i  # same sheet rows as asset B1
     off = S.int("off", -720, 840) if spec.get("off") else None
